@@ -21,6 +21,43 @@ fn obs<T: Scalar>(v: &Dyn<T>) -> (String, String) {
     (format!("{:?}", v), opt_key(v.last()))
 }
 
+/// the subject plus *foreign* instances (same kind, other window lengths) that are fed
+/// interleaved with it: hidden state shared between instances (a static scratch buffer, a
+/// memo keyed by window length) shows as a difference from the twin, which replays the
+/// subject's history with nothing in between
+#[derive(Clone)]
+struct Subject<T: Scalar> {
+    v: Dyn<T>,
+    foreign: Vec<Dyn<T>>,
+}
+
+fn foreign_specs(spec: &Spec) -> Vec<Spec> {
+    let mut v = vec![];
+    if crate::spec::entry(spec.kind).has_n && spec.ch.len() <= 2 && spec.kind != Kind::Add {
+        for dn in [1usize, 3] {
+            let mut f = spec.clone();
+            f.n = spec.n + dn;
+            v.push(f);
+        }
+    }
+    v
+}
+
+fn node_s<T: Scalar>(spec: &Spec, s: &mut Subject<T>, hist: &[f64], alpha: &[f64], st: &mut Stats, sink: &Sink) -> Step {
+    // feed the foreign instances something the subject never sees, right before the subject works
+    let positive = needs_positive(spec);
+    let r = guard(|| {
+        for (i, f) in s.foreign.iter_mut().enumerate() {
+            f.update(T::of(if positive { 7.5 + i as f64 } else { -3.5 - i as f64 }));
+            let _ = f.last();
+        }
+    });
+    if r.is_err() {
+        s.foreign.clear();
+    }
+    node(spec, &mut s.v, hist, alpha, st, sink)
+}
+
 /// all the C17 obligations at one node; `s` is the state before the update by `x`
 fn node<T: Scalar>(spec: &Spec, s: &mut Dyn<T>, hist: &[f64], alpha: &[f64], st: &mut Stats, sink: &Sink) -> Step {
     let x = *hist.last().unwrap();
@@ -98,7 +135,7 @@ fn node<T: Scalar>(spec: &Spec, s: &mut Dyn<T>, hist: &[f64], alpha: &[f64], st:
 
 fn check_tree<T: Scalar>(spec: &Spec, depth: usize, st: &mut Stats, sink: &Sink) {
     let alpha = alphabet(spec);
-    let root = match guard(|| build::<T>(spec)) {
+    let root = match guard(|| Subject { v: build::<T>(spec), foreign: foreign_specs(spec).iter().filter_map(|f| guard(|| build::<T>(f)).ok()).collect() }) {
         Ok(r) => r,
         Err(_) => {
             st.skipped_configs += 1;
@@ -106,12 +143,12 @@ fn check_tree<T: Scalar>(spec: &Spec, depth: usize, st: &mut Stats, sink: &Sink)
         }
     };
     st.configs += 1;
-    tree::<T, Dyn<T>>(
+    tree::<T, Subject<T>>(
         &root,
         &alpha,
         depth,
         st,
-        &mut |s, hist, st| node(spec, s, hist, &alpha, st, sink),
+        &mut |s, hist, st| node_s(spec, s, hist, &alpha, st, sink),
         &mut |_, _| {},
     );
 }
@@ -194,7 +231,7 @@ pub fn run(ctx: &Ctx) -> CheckOutput {
         stats: o.stats,
         violations: o.viols,
         samples: o.samples,
-        rule: "every view (all variants, N in 1..3), every domain-compatible two-level chain, combinators over a 5-view pool: at every node of TREE(Z3 or {1,2,3}) - last() x3 pure (bits and Debug state), a clone per continuation letter equal at birth, feeding the clone leaves the original's Debug state untouched, original and clone fed the same letter agree, and a fresh twin replaying the history reaches the same Debug state and output".into(),
+        rule: "every view (all variants, N in 1..3), every domain-compatible two-level chain, combinators over a 5-view pool: at every node of TREE(Z3 or {1,2,3}) - last() x3 pure (bits and Debug state), a clone per continuation letter equal at birth, feeding the clone leaves the original's Debug state untouched, original and clone fed the same letter agree, and a fresh twin replaying the history (with nothing interleaved) reaches the same Debug state and output, while the subject is fed interleaved with foreign instances of the same kind and other window lengths".into(),
         assumptions: vec!["state identity = derived Debug rendering of the real structs (prints every field)".into(), "Add lacks Clone: its 'clone' is a rebuilt twin".into()],
         exhaustive: true,
         bounds: json!({"depth": depth}),
